@@ -3,7 +3,7 @@ import serverlib as sl
 import srvprops
 
 PROP = "C09"
-THEOREMS = ["C09_only_success", "C09_preauth_moves", "C09_client_success_only", "C09_client_continue_only", "C09_link_transparent", "C09_outcome_success_only"]
+THEOREMS = ["C09_only_success", "C09_preauth_moves", "C09_client_success_only", "C09_client_continue_only", "C09_link_transparent", "C09_outcome_success_only", "C09_concurrent_authentications_transparent", "C09_concurrent_fail_closed"]
 
 
 LINK_NOTE = "Modulator-link stage: the real S2M/M2S dispatchers (crates/modulator/src/conn.rs) behind the real connection engine are fed raw byte chunks (handshakes with right/wrong/missing secret and version, the whole three-link vocabulary in each phase, payloads, scripted modulator outcomes) and compared chunk by chunk with Model/Link.v inside coqc (Conf/LinkConf.link_conf); the real S2mClient (crates/modulator/src/client.rs) is run against a scripted wire peer (sensible, contradictory, mis-correlated, malformed, missing replies, dropped links) and each call's result is compared with Model/Link.v's reply mapping (Conf/LinkConf.client_conf); a share of the server histories runs with the real S2M/M2S wire path between server and modulator (unix sockets), including histories in which the modulator process goes away (listener gone, links ended): every delegated decision must fail closed."
